@@ -125,6 +125,9 @@ def check(repo, rep):
     for dd in sw.paths:
         tag = 'split[%s]' % ('AudioReader input' if dd['reader_branch'] else 'other input')
         tok = dd['tok']
+        if tok is None:
+            rep.unknown('split(): the tokenizer feeding the returned iterable was not identified (%s)' % (dd['kind'] or show(dd['leaf'].value)[:60]))
+            continue
         ok = tok is not None and tok[0] == 'call' and tok[1][0] == 'g' and cx.model.lookup(tok[1]) and cx.model.lookup(tok[1])[0] == 'class'
         rep.ob('split() constructs a new tokenizer inside the call', bool(ok), dd['where'], tag + ':fresh-tokenizer', 'tokenizer is %s' % (show(tok)[:80] if tok else None))
         src = dd['src']
